@@ -6,8 +6,8 @@ EXTENDS HistBins, LogicleParams, TLC
 VARIABLES stage, scn, out
 vars == <<stage, scn, out>>
 C == 3
-ResOf == <<5, 256, 1000>>
-States == {"raw", "rfi", "mef", "float-neg"}       \* float-neg: float data with negative events
+ResOfState(st) == IF st = "raw18" THEN <<262144, 256, 1000>> ELSE <<5, 256, 1000>>      \* raw18: an 18-bit channel
+States == {"raw", "rfi", "mef", "float-neg", "raw18"}       \* float-neg: float data with negative events
 LoNonPos(s) == IF s = "rfi" THEN <<FALSE, FALSE, FALSE>> ELSE <<TRUE, TRUE, TRUE>>
 
 ChF(t, cols, named) == [t |-> t, cols |-> cols, named |-> named]
@@ -36,7 +36,7 @@ Next ==
   \/ stage = 4 /\ \E o \in Overrides : (o # "none" => \E j \in 1..Len(scn[4].vals) : scn[4].vals[j] = "logicle")
                                        /\ scn' = Append(scn, o) /\ stage' = 5 /\ UNCHANGED out
   \/ /\ stage = 5
-     /\ LET base == HistBinsCall(scn[2], scn[3], scn[4], C, ResOf, LoNonPos(scn[1]))
+     /\ LET base == HistBinsCall(scn[2], scn[3], scn[4], C, ResOfState(scn[1]), LoNonPos(scn[1]))
             usesLogicle == base.k = "ok" /\ \E j \in 1..Len(base.per) : base.per[j].scale = "logicle"
         IN out' = IF usesLogicle /\ Refused(Given(scn[5]), Sign(scn[5])) THEN [k |-> "err", scalar |-> FALSE, per |-> <<>>, src |-> <<>>]
                   ELSE [k |-> base.k, scalar |-> base.scalar, per |-> base.per,
@@ -47,7 +47,7 @@ Done == stage = 100
 
 EdgesIncreasing == (Done /\ out.k = "ok") => \A j \in 1..Len(out.per) : out.per[j].n <= 16 => Increasing(out.per[j].res, out.per[j].n)
 EdgesCover == (Done /\ out.k = "ok") => \A j \in 1..Len(out.per) : Covers(out.per[j].res, out.per[j].n)
-CentredSmall == Centred(5) /\ Centred(8) /\ Centred(16)
+CentredSmall == Centred(5) /\ Centred(8) /\ Centred(16) /\ \A r \in {2, 5, 8, 16} : \A n \in 1..20 : EndsAgree(r, n)
 SourcesTotal == (Done /\ out.k = "ok") => out.src.T \in {"given", "largest-range-upper-limit"} /\ out.src.W \in {"given", "zero", "from-most-negative-event"}
 UnknownScaleRefused == Done => ((\E j \in 1..Len(scn[4].vals) : scn[4].vals[j] = "foo" /\ (scn[4].t = "scalar" \/ j <= Len(Requested(scn[2], C)))) => out.k = "err")
 =============================================================================
